@@ -1168,6 +1168,14 @@ class Interp(object):
     def e_Call(self, node, fr):
         fnode = node.func
         if isinstance(fnode, ast.Name) and fnode.id in self.drop and fnode.id not in fr.locals:
+            # the call itself is dropped (output only), but its arguments are evaluated: they may raise
+            try:
+                for a in node.args:
+                    self.eval(a.value if isinstance(a, ast.Starred) else a, fr)
+                for k in node.keywords:
+                    self.eval(k.value, fr)
+            except Unsupported as e:
+                self.path.note("argument of a dropped %s(...) call not interpreted: %s" % (fnode.id, e))
             return None
         fn = self.eval(fnode, fr)
         args = []
